@@ -396,7 +396,9 @@ def C14(tier, seed):
     pairs = [((0, 'functor'), (0, 'basic')), ((3, 'functor'), (3, 'basic'))] + ([((2, 'functor'), (2, 'basic'))] if tier == 'thorough' else [])
     product_units(chk, ['F1', 'R2', 'H2'] if tier == 'thorough' else ['F1', 'H2'], pairs, 'C14')
     # (2) guard expressions And_ / Or_ / Not_ (nesting = parentheses, C++ short circuit) and ActionSequence_ against the reference
-    oracle_units(chk, ['G1'], [0, 2, 3], 'C14', proj=STD, bfs_depth=4)
+    #     every guard and action functor additionally reports which source / target state objects it was called with
+    oracle_units(chk, ['G1'], [0, 2, 3], 'C14', proj=STD + ('S',), bfs_depth=4, opts={'defines': ['VF_SRCTGT_ON 1']},
+                 prog_mod=lambda prog: setattr(prog, 'log_srctgt', True))
     chk.assumptions.append('C14: the eUML and PlantUML front-ends and the PlantUML tokenizer are NOT covered (DESIGN 9: no verdict for the tokenizer kernel within 900 s / 14 GB even for a four-character line)')
     return chk
 
